@@ -307,3 +307,56 @@ func WriteLoadFailure(verifDir, id, tier string, seed int, loadErr error) {
 	fmt.Printf("cannot load /repo: %v\n", loadErr)
 	fmt.Printf("VIOLATION property=%s replay=%s\n", id, replay)
 }
+
+// CrossCheck compares the obligations of this check with those of the same rules run on another build configuration
+// (thorough tier): an obligation that exists in one configuration only, or whose status differs, is recorded as
+// undecided on this check — the verdict must not depend on the platform the analysis happened to load.
+func (c *Check) CrossCheck(other *Check, config string) {
+	type st struct {
+		status Status
+		fact   string
+	}
+	collect := func(x *Check) map[string]st {
+		out := map[string]st{}
+		for _, r := range x.Rules {
+			for _, o := range r.obs {
+				out[o.Rule+" | "+o.Key] = st{o.Status, o.Fact}
+			}
+		}
+		return out
+	}
+	a, b := collect(c), collect(other)
+	r := c.Rule("X", "thorough tier: the same rules decided on the program built for "+config+" give the same obligations with the same status (the verdict does not depend on the platform loaded)", 0)
+	n, diff := 0, 0
+	var keys []string
+	for k := range a {
+		keys = append(keys, k)
+	}
+	for k := range b {
+		if _, ok := a[k]; !ok {
+			keys = append(keys, k)
+		}
+	}
+	sort.Strings(keys)
+	for _, k := range keys {
+		x, okA := a[k]
+		y, okB := b[k]
+		n++
+		switch {
+		case !okA:
+			diff++
+			r.Unknown("only on "+config+": "+k, "-", "this obligation exists only in the "+config+" build: "+y.fact)
+		case !okB:
+			diff++
+			r.Unknown("missing on "+config+": "+k, "-", "this obligation does not exist in the "+config+" build")
+		case x.status != y.status:
+			diff++
+			r.Unknown("differs on "+config+": "+k, "-", "status differs between the two builds; on "+config+": "+y.fact)
+		}
+	}
+	if diff == 0 {
+		r.OK(fmt.Sprintf("%d obligations compared with the %s build", n, config), "-", "same obligations, same status")
+	}
+	c.Extra["cross_config"] = config
+	c.Extra["cross_config_obligations"] = n
+}
